@@ -307,11 +307,12 @@ def extendLoop (c : Cfg) (orc : Map → Nat → Orc) : Map → List Entry → Co
     | .error f => .error f
     | .ok (m', out) => extendLoop c orc m' rest (cost + out.cost + { dropped := out.returned })
 
-/-- `extend(iter)` for an iterator whose `size_hint().0` is its length (`Vec`, arrays, other maps): reserve the
-    whole hint if the map is empty, half of it (rounded up) otherwise, then insert every pair.
-    `from_iter` is `extend` on `with_capacity_and_hasher(0, …)`. -/
-def extend (c : Cfg) (m : Map) (items : List Entry) (orc : Map → Nat → Orc) : Except Fault (Map × Out) :=
-  let hint := if m.len = 0 then items.length else (items.length + 1) / 2
+/-- `extend(iter)`: reserve the whole `size_hint().0` if the map is empty, half of it (rounded up) otherwise, then
+    insert every pair.  `hint` is what the iterator CLAIMS (`size_hint` is advisory: it need not be the number of
+    pairs, and may be `usize::MAX`); the rounding is `hint / 2 + hint % 2`, which cannot overflow — an unsatisfiable
+    hint ends in `reserve`'s capacity-overflow panic.  `from_iter` is `extend` on `with_capacity_and_hasher(0, …)`. -/
+def extend (c : Cfg) (m : Map) (items : List Entry) (hint : Nat) (orc : Map → Nat → Orc) : Except Fault (Map × Out) :=
+  let hint := if m.len = 0 then hint else hint / 2 + hint % 2
   match reserve c m hint (orc m items.length) with
   | .error f => .error f
   | .ok (m1, out1) =>
